@@ -2129,17 +2129,33 @@ func (p *produceRequest) idempotent() bool { return p.producerID >= 0 }
 func (p *produceRequest) tryAddBatch(produceVersion int32, recBuf *recBuf, batch *recBatch) bool {
 	batchWireLength, flexible, topicIDs := batch.wireLengthForProduceVersion(produceVersion)
 	batchWireLength += 4 // int32 partition prefix
+	unknown := produceVersion < 0
+	if flexible || unknown {
+		batchWireLength++ // empty tag section after the partition
+	}
 
 	if partitions, exists := p.batches.bs[recBuf.topic]; !exists {
 		if topicIDs {
-			batchWireLength += 16 + 1 // topic ID size, compact array len for 1 item (if we are using topic IDs, we are definitely flexible)
+			batchWireLength += 16 + 1 + 1 // topic ID size, compact array len for 1 item, empty tag section after the topic (if we are using topic IDs, we are definitely flexible)
 		} else {
 			lt := int32(len(recBuf.topic))
 			if flexible {
-				batchWireLength += uvarlen(len(recBuf.topic)) + lt + 1 // compact string len, topic, compact array len for 1 item
+				batchWireLength += uvarlen(len(recBuf.topic)) + lt + 1 + 1 // compact string len, topic, compact array len for 1 item, empty tag section after the topic
 			} else {
-				batchWireLength += 2 + lt + 4 // string len, topic, partition array len
+				topicLength := 2 + lt + 4 // string len, topic, partition array len
+				if unknown && topicLength < 16+1+1 {
+					topicLength = 16 + 1 + 1 // we may end up writing a topic ID
+				}
+				batchWireLength += topicLength
 			}
+		}
+		if flexible {
+			// Adding this topic may increase the length of our
+			// topics size prefix; our base length has room for
+			// one byte of it.
+			lastTopicsLen := uvarlen(len(p.batches.bs))
+			newTopicsLen := uvarlen(len(p.batches.bs) + 1)
+			batchWireLength += (newTopicsLen - lastTopicsLen)
 		}
 	} else if flexible {
 		// If the topic exists and we are flexible, adding this
